@@ -179,7 +179,7 @@ async fn one_config(a: Args, idx: usize, proto: Proto, transport: Transport, per
             FlowSpec { id: (idx as u64) << 16 | 4001, kind: kinds[(idx + 1) % kinds.len()], c2s: big, s2c: big, write_c: 65536, write_s: 65536, pause_ms: 0, pattern: Pattern::DeafTarget, closer: Closer::AppAfterAll },
         ];
         rep.mon("full_duplex_bulk_flows_with_a_deaf_end", duplex.len() as u64);
-        results.extend(run_batch(reg.clone(), &d, target.port, duplex, 2, Duration::from_secs(60)).await);
+        results.extend(run_batch(reg.clone(), &d, target.port, duplex, 2, Duration::from_secs(40)).await);
     }
     // flows through the server's SECOND entry (its own credentials), by a second client process
     {
@@ -298,11 +298,27 @@ pub async fn run(a: &Args) -> Report {
         let parts: Vec<&str> = sig.split('|').collect();
         if parts.len() >= 5 { format!("{}|{}|{}", parts[1], parts[2], parts[4..].join("|")) } else { sig.to_string() }
     };
-    for (idx, p, t, mut r) in suspects {
-        let sem1 = Arc::new(tokio::sync::Semaphore::new(1));
-        let again = one_config(a.clone(), idx, p, t, sem1.acquire_owned().await.unwrap()).await;
-        let confirmed: std::collections::HashSet<String> = again.violations.keys().map(|k| symptom(k)).collect();
-        rep.mon("configurations_re_run_in_isolation", 1);
+    // the symptom without protocol, transport and handshake kind
+    let class = |sig: &str| -> String { sig.split('|').skip(4).collect::<Vec<_>>().join("|") };
+    let mut confirmed_classes: std::collections::HashMap<String, usize> = std::collections::HashMap::new();
+    for (n, (idx, p, t, mut r)) in suspects.into_iter().enumerate() {
+        // the check stays bounded when something is wrong everywhere: four configurations are run again; a further one is
+        // believed without a run of its own when the very same symptom has come back in isolation for two others
+        let confirmed: std::collections::HashSet<String> = if n < 4 {
+            let sem1 = Arc::new(tokio::sync::Semaphore::new(1));
+            let again = one_config(a.clone(), idx, p, t, sem1.acquire_owned().await.unwrap()).await;
+            rep.mon("configurations_re_run_in_isolation", 1);
+            let c: std::collections::HashSet<String> = again.violations.keys().map(|k| symptom(k)).collect();
+            for k in r.violations.keys() {
+                if c.contains(&symptom(k)) {
+                    *confirmed_classes.entry(class(k)).or_insert(0) += 1;
+                }
+            }
+            c
+        } else {
+            rep.mon("suspect_configurations_judged_by_the_re_runs_of_others", 1);
+            r.violations.keys().filter(|k| confirmed_classes.get(&class(k)).copied().unwrap_or(0) >= 2).map(|k| symptom(k)).collect()
+        };
         let sigs: Vec<String> = r.violations.keys().cloned().collect();
         for sig in sigs {
             if !confirmed.contains(&symptom(&sig)) {
